@@ -26,3 +26,13 @@ Theorem C07_counts_tie :
   Consts.n_moves_for_size = map (fun n => zlen (table n)) [0; 1; 2; 3; 4; 5; 6] /\
   Consts.MAX_MOVE_ID = zlen (table 6).
 Proof. exact counts_tie. Qed.
+
+(* ---- about the function regenerated from the source (gen/GameGen.v, harness/py2coq.py against model/PySem.v) ---- *)
+From TV Require Import model.PySem proofs.GameGenEq.
+From TV Require gen.GameGen.
+(* the translated all_moves_for_size (and ALL_SLIDES) IS the model's table, entry for entry, for every size up to 8:
+   so the bijection above is a statement about the table the source text builds *)
+Theorem C07_source_table_is_model : forall n, n <= 8 -> GameGen.all_moves_for_size n = Ok (table n).
+Proof. exact gen_table_eq. Qed.
+Theorem C07_source_all_slides_is_model : GameGen.ALL_SLIDES = Ok (map all_slides (seq 0 9)).
+Proof. exact gen_all_slides_eq. Qed.
